@@ -285,7 +285,8 @@ def run_obj_histories(chk: core.Check, n_hist: int):
 # ---------------------------------------------------------------------------------------
 
 WIDE_OPS = ["rstrip", "rstrip_aggr", "optimize_width", "transpose", "set_span", "del_span", "extend_rows", "set_column_cells",
-            "live_row_edit", "row_repeated", "clear_row"]
+            "live_row_edit", "row_repeated", "cell_repeated", "clear_row"]
+LIVE_REPEATED = ("row_repeated", "cell_repeated")
 WIDE_READS = T.READS + ["get_row_values", "get_row_width", "get_cells", "is_row_empty"]
 
 
@@ -359,6 +360,11 @@ def wide_op(t, rng):
             d["y"] = rng.randrange(H)
             d["rep"] = rng.choice([None, 2, 3])
             t.get_row(d["y"], clone=False).repeated = d["rep"]
+    elif k == "cell_repeated":
+        if H and W:
+            d["x"], d["y"] = rng.randrange(W), rng.randrange(H)
+            d["rep"] = rng.choice([None, 2, 3])
+            t.get_cell((d["x"], d["y"]), clone=False).repeated = d["rep"]
     elif k == "clear_row":
         if H:
             d["y"] = rng.randrange(H)
@@ -393,9 +399,14 @@ def run_wide_histories(chk: core.Check, n_hist: int):
                 break
             if t.width == 0 and t.height:
                 break
+            if d["op"] in LIVE_REPEATED:
+                # known finding C02-F3 leaves the owner stale whenever the count really changed: whatever follows in
+                # the same history would be attributed to it, so the history ends here
+                break
 
 
 def run(chk: core.Check) -> None:
+    chk.classifiers["live_repeated_setter"] = lambda case: bool(case.get("ops")) and case["ops"][-1].get("op") in LIVE_REPEATED
     chk.rule = (
         "the C01 histories with a cache-filling read (get_row / get_cell / get_value / traverse / get_column / get_values / get_column_cells, "
         "clone True/False) before most mutations; after every mutation the live object, the fresh parse of its serialisation and an independent "
